@@ -521,11 +521,18 @@ class IndexLevel:
             if level.targets is None:
                 try:
                     # NOTE: as a selection list might be given within the HLoc, it will be tested accross many indices, and should support a partial matching
-                    ilocs.append(level.index._loc_to_iloc(
+                    iloc = level.index._loc_to_iloc(
                             depth_key,
                             offset=next_offset,
                             partial_selection=True,
-                            ))
+                            )
+                    if iloc.__class__ is slice and (iloc.start is None or iloc.stop is None):
+                        # an open-ended label slice covers this leaf index only, not the rest of the hierarchy
+                        iloc = slice(
+                                next_offset if iloc.start is None else iloc.start,
+                                next_offset + level.index.__len__() if iloc.stop is None else iloc.stop,
+                                iloc.step)
+                    ilocs.append(iloc)
                 except KeyError:
                     pass
             else: # when not at a leaf, we are selecting level_targets to descend withing
@@ -897,6 +904,9 @@ class IndexLevelGO(IndexLevel):
             # only set on first encounter in descent
             if depth_not_found == -1 and not node.index.__contains__(k):
                 depth_not_found = depth
+            elif depth_not_found == -1 and node.index._loc_to_iloc(k) != node.index.__len__() - 1:
+                # the key continues a branch that is not the last one: appending it under the last branch would store another label
+                raise RuntimeError(f'appending key {key} would break the tree order: {k} is not the last label at depth {depth}')
             if node.targets is not None:
                 node = node.targets[-1]
 
